@@ -134,16 +134,35 @@ def build_hrg(shape, *, ids='implicit', rule_order=None, node_perm=None, edge_pe
         nperm = node_perm[ri] if node_perm else list(range(len(r['nodes'])))
         eperm = edge_perm[ri] if edge_perm else list(range(len(r['edges'])))
         nodes = {}
+        # ids == 'derived': external nodes are called a, b, c, ...; every other node gets a DECORATION of the name of an earlier node with
+        # the same label (a', a'', a_1, a1, a copy, ...): the names a piece of code that invents a "fresh" id by decorating an existing
+        # one would produce
+        dnames = {}
+        if ids == 'derived':
+            R = rng or random
+            used = set()
+            for j, v in enumerate(dict.fromkeys(r['ext'])):
+                dnames[v] = 'abcdefgh'[j % 8] + ('' if j < 8 else str(j)); used.add(dnames[v])
+            for v in range(len(r['nodes'])):
+                if v in dnames:
+                    continue
+                same = [u for u in dnames if r['nodes'][u] == r['nodes'][v]] or list(dnames) or None
+                base = dnames[R.choice(same)] if same else 'v'
+                for dec in R.sample(["'", "''", "_1", "1", " copy", "_", "'1", "_2"], 8):
+                    if base + dec not in used:
+                        break
+                dnames[v] = base + dec if base + dec not in used else f'{base}#{v}'
+                used.add(dnames[v])
         for v in nperm:
-            explicit = ids == 'explicit' or (ids == 'mixed' and (rng or random).random() < 0.5)
-            nid = f'r{ri}v{v}' if explicit else None
+            explicit = ids in ('explicit', 'derived') or (ids == 'mixed' and (rng or random).random() < 0.5)
+            nid = dnames[v] if ids == 'derived' else (f'r{ri}v{v}' if explicit else None)
             nodes[v] = Node(NL[r['nodes'][v]], id=nid)
             rhs.add_node(nodes[v])
         edges = {}
         for ei in eperm:
             kind, idx, att = r['edges'][ei]
-            explicit = ids == 'explicit' or (ids == 'mixed' and (rng or random).random() < 0.5)
-            eid = f'r{ri}e{ei}' if explicit else None
+            explicit = ids in ('explicit', 'derived') or (ids == 'mixed' and (rng or random).random() < 0.5)
+            eid = (("e" + "'" * ei) if ids == 'derived' else f'r{ri}e{ei}') if explicit else None
             edges[ei] = Edge(TL[idx] if kind == 't' else XL[idx], [nodes[v] for v in att], id=eid)
             rhs.add_edge(edges[ei])
         rhs.ext = [nodes[v] for v in r['ext']]
